@@ -22,6 +22,7 @@ def main():
             # the root file named by a relative path with a directory part, from the directory above the sources
             os.chdir(os.path.dirname(c["src"]))
             root = os.path.relpath(root)
+            c = dict(c, out=os.path.relpath(c["out"]))  # ... and the output directory by a relative path as well
         try:
             valx.compile_file(root, c["name"], c["out"], black=c.get("black", True), python=True, javascript=True, matlab=True, c_lang=True,
                               info=True, combined=True, **c.get("kw", {}))
